@@ -5,7 +5,9 @@
 //!   1. initialises fibre_logging from the generated YAML,
 //!   2. takes the custom streams out of the `InitResult` and starts one consumer per stream,
 //!   3. emits the script through `log` and `tracing` from 1–4 threads,
-//!   4. shuts down (explicit `shutdown()` or dropping the guard) at the generated point,
+//!   4. shuts down at the generated point: explicit `shutdown()` or dropping the guard, on the
+//!      initialising thread or on a thread the guard was moved to, by an ordinary end of scope
+//!      or by a panic unwinding through the owner; optionally exits right afterwards,
 //!   5. writes what it observed to `result.json`; files are read by the parent.
 //! Nothing but the console appender writes to stdout.
 
@@ -46,6 +48,27 @@ pub struct Job {
   /// shut down once this many events have been emitted (None: after all emitters have finished)
   pub shutdown_at: Option<u32>,
   pub via_drop: bool,
+  /// how the session is ended (who ends it, and whether by unwinding)
+  #[serde(default)]
+  pub how: How,
+  /// the process exits as soon as the teardown has returned (only with `shutdown_at: None`)
+  #[serde(default)]
+  pub exit_after: bool,
+}
+
+/// The ways a logging session is ended (besides the choice `shutdown()` / guard drop).
+#[derive(Clone, Copy, Debug, Default, Serialize, Deserialize, PartialEq, Eq)]
+pub enum How {
+  /// on the thread that initialised, by an ordinary call / end of scope
+  #[default]
+  Plain,
+  /// the guard is dropped by a panic unwinding through the scope that owns it (initialising
+  /// thread; the driver catches the panic so that it can still report)
+  Unwind,
+  /// the guard was moved into a spawned thread, which panics while owning it
+  UnwindThread,
+  /// the guard was moved into a spawned thread, which ends the session in the ordinary way
+  OtherThread,
 }
 
 #[derive(Clone, Debug, Default, Serialize, Deserialize)]
@@ -64,6 +87,9 @@ pub struct ChildResult {
   pub streams: BTreeMap<String, StreamResult>,
   pub shutdown_ms: u64,
   pub missing_streams: Vec<String>,
+  /// `exit_after`: this result was written before the teardown; streams are not reported
+  #[serde(default)]
+  pub exited_right_after_teardown: bool,
 }
 
 // One static tracing callsite per (target, level).  The literals must match c19_model::TARGETS
@@ -199,13 +225,46 @@ pub fn main(job_path: &str) -> i32 {
       }
     }
   }
+  if job.exit_after {
+    // "process exit right after the teardown": the report is written first (every emitter has
+    // been joined, so it is complete), nothing runs between the teardown and the exit
+    assert!(emitters.is_empty(), "exit_after needs the emitters joined");
+    result.before_shutdown = joined.iter().map(|j| j.clone().unwrap_or_default()).collect();
+    result.exited_right_after_teardown = true;
+    write_result(&result);
+  }
   SHUTDOWN_STARTED.store(true, Ordering::SeqCst);
   let t0 = Instant::now();
-  if job.via_drop {
-    // "shutting down or dropping the guard flushes everything buffered"
-    drop(init);
-  } else {
-    init.shutdown(Duration::from_secs(20));
+  // "shutting down or dropping the guard flushes everything buffered"
+  let via_drop = job.via_drop;
+  let end_ordinary = move |init: fibre_logging::InitResult| {
+    if via_drop {
+      drop(init);
+    } else {
+      init.shutdown(Duration::from_secs(20));
+    }
+  };
+  // the guard goes out of scope because a panic unwinds through its owner
+  let end_by_panic = move |init: fibre_logging::InitResult| {
+    let _guard = init;
+    std::panic::panic_any("logx: generated panic in the scope that owns the logging guard");
+  };
+  match job.how {
+    How::Plain => end_ordinary(init),
+    How::Unwind => {
+      let r = std::panic::catch_unwind(std::panic::AssertUnwindSafe(move || end_by_panic(init)));
+      assert!(r.is_err(), "the generated panic did not happen");
+    }
+    How::UnwindThread => {
+      let r = std::thread::Builder::new().name("guard-owner".into()).spawn(move || end_by_panic(init)).unwrap().join();
+      assert!(r.is_err(), "the generated panic did not happen");
+    }
+    How::OtherThread => {
+      std::thread::Builder::new().name("guard-owner".into()).spawn(move || end_ordinary(init)).unwrap().join().expect("teardown thread panicked");
+    }
+  }
+  if job.exit_after {
+    std::process::exit(0);
   }
   result.shutdown_ms = t0.elapsed().as_millis() as u64;
 
